@@ -1,5 +1,6 @@
 """C07 — referencing object maps implement the relational inner equi-join."""
 import copy
+import re
 import csv
 import json
 import os
@@ -10,7 +11,7 @@ import coregen as cg
 import corecases as cc
 
 PROP = 'C07'
-LEAN_TARGETS = ['MorphKgc.Props.C07', 'MorphKgc.Props.C07Now']
+LEAN_TARGETS = ['MorphKgc.Props.C07', 'MorphKgc.Props.C07Now', 'MorphKgc.Props.C07Sec']
 GEN_KEYS = ['join']
 M = 'MorphKgc.Props.C07'
 THEOREMS = [{'name': f'Props.C07.{n}', 'module': M} for n in [
@@ -28,6 +29,7 @@ THEOREMS = [{'name': f'Props.C07.{n}', 'module': M} for n in [
     {'name': 'Model.elimination_sameOutcome', 'module': 'MorphKgc.Lemmas.JoinElimSound'}]
 # hypothesis-free theorems of the repaired shapes the translator reads from /repo now (Props/C07Now.lean)
 THEOREMS += [{'name': f'Props.C07.{n}', 'module': 'MorphKgc.Props.C07Now'} for n in ['C07_current_elim_shape', 'C07_current_object_query', 'C07_current_same_table', 'C07_elimination_current', 'C07_shared_model_is_current', 'C07_objects_seen_current']]
+THEOREMS += [{'name': f'Props.C07Sec.{n}', 'module': 'MorphKgc.Props.C07Sec'} for n in ['C07_F6_cross_section_parent_termtype', 'C07_F6_document_reading', 'C07_F6_same_section_agrees']]
 LINKS = [{'target': 'MorphKgc.Props.C07Doc', 'needs': ['MorphKgc.Props.C01'], 'theorems': [{'name': f'Props.C07Doc.{n}', 'module': 'MorphKgc.Props.C07Doc'} for n in ['C07_doc_refinement', 'C07_doc_no_raise', 'C07_doc_no_extra', 'C07_doc_no_missing', 'C07_doc_refinement_extends_C01', 'ref_combo_refines', 'Cw.same_lsv_other_source_engine', 'Cw.same_lsv_other_source_spec', 'Cw.same_lsv_other_source_rest', 'Cw.same_lsv_other_source_fixed', 'Cw.no_condition_engine', 'Cw.no_condition_spec']]}]
 RULE = ('a child triples map with one referencing object map (1-3 join conditions, optional graph maps, optional second plain '
         'predicate-object map) and a parent triples map (subject map over join columns only / other columns / both / constant; optional '
@@ -56,9 +58,9 @@ ASSUMPTIONS = ['cell values of generated cases are [a-z0-9] strings, so that ter
                'property quantifies over one or several conditions',
                'cross-section cases (sql_xsec): the parent subject map is IRI-valued (a blank-node parent subject in ANOTHER section '
                'gives objects `<Pb>` instead of `_:Pb`, because _complete_termtypes completes the term type of a referencing object map '
-               'from the parent subject map within the mapping graph of one section only: observed on the real engine, a candidate '
-               'finding of its own, not generated here) and the parent triples map has a predicate-object map (a mapping file whose '
-               'triples maps have none makes the parser raise KeyError object_map)']
+               'from the parent subject map within the mapping graph of one section only: finding C07_F6, reproduced by one fixed case; '
+               'random cases avoid it so that the model correspondences stay exact) and the parent triples map has a predicate-object map (a mapping file whose '
+               'triples maps have none made the parser raise KeyError object_map: C12_F3, repaired by d15741a)']
 
 NA = ('', 'nan')
 RMLNS = 'http://w3id.org/rml/'
@@ -468,6 +470,16 @@ def scope_F5(case):
     return case['kind'] == XSEC and elim_tests_repaired(case)
 
 
+def scope_F6(case):
+    """the parent triples map is declared in another section (mapping graph) and its subject is a blank node"""
+    return case['kind'] == XSEC and case['psubj'].get('termtype') == 'bnode'
+
+
+def as_iri_objects(lines):
+    """the expected statements with every blank-node OBJECT `_:x` written as the IRI `<x>` (what C07_F6 produces)"""
+    return sorted(re.sub(r'^(\S+ \S+) _:(\S+)', r'\1 <\2>', l) for l in lines)
+
+
 def scope_F1(case):
     return not all(c in [p for _, p in case['conds']] for c in refs_of(case['psubj']))
 
@@ -523,6 +535,8 @@ def triage(case, kind, got):
     """which open finding explains the behaviour of the real engine on this case (None = none: a new violation)"""
     if scope_F3(case) and kind == 'exc' and (got.startswith('ValueError: columns overlap') or got.startswith('KeyError')):
         return 'C07_F3'
+    if kind == 'ok' and scope_F6(case) and got == as_iri_objects(expected(case)):
+        return 'C07_F6'
     if kind == 'ok' and elim_tests_found(case) and (scope_F1(case) or scope_F2(case)) and got == expected(case, identity=True):
         return 'C07_F1' if scope_F1(case) else 'C07_F2'
     return None
@@ -575,7 +589,8 @@ def one_case(ctx, drv, case, d):
                   'F2': scope_F2_rule(case, g)}
             if any(sc[k] != v for k, v in py.items()):
                 ctx.disagree('scope predicates (Python vs Model.scope_C07_F1/F2, elimTests)', case, {k: sc[k] for k in py}, py)
-    if kind != 'ok' or rules is None or scope_F3(case):
+    if kind != 'ok' or rules is None or scope_F3(case) or scope_F6(case):
+        # (inside C07_F6 the normaliser model of the whole document gives the parent's term type, the engine the default)
         return
     modelled = case['kind'] != 'json_iter'
     if modelled:
@@ -750,6 +765,10 @@ XSEC_FIXED = {'kind': 'sql_xsec', 'ccols': ['k'], 'pcols': ['k'], 'crows': [{'k'
               'pred': 'http://ex.org/p/a', 'conds': [['k', 'k']], 'graphs': [], 'fmt': 'N-TRIPLES', 'cpom': None,
               'ppom': {'pred': 'http://ex.org/q/p', 'ref': 'k'}, 'parent_first': False}
 FIXED.insert(0, XSEC_FIXED)
+# C07_F6 (open): the same two sections with a BLANK-NODE parent subject: the object must be `_:Px`, the engine writes `<Px>`
+XSEC_BNODE = dict(copy.deepcopy(XSEC_FIXED),
+                  psubj={'kind': 'template', 'tpl': {'pre': 'P', 'parts': [['k', '']]}, 'value': 'P{k}', 'termtype': 'bnode'})
+FIXED.insert(1, XSEC_BNODE)
 
 
 def norm_case(case):
